@@ -9,6 +9,7 @@ mod c06;
 mod c07;
 mod c18;
 mod c16;
+mod c15;
 pub mod filters;
 
 use std::io::Write;
@@ -40,6 +41,7 @@ fn main() {
         "C07" => c07::run(&mut ctx),
         "C18" => c18::run(&mut ctx),
         "C16" => c16::run(&mut ctx),
+        "C15" => c15::run(&mut ctx),
         other => {
             eprintln!("unknown property {}", other);
             std::process::exit(2);
